@@ -150,18 +150,23 @@ func (s *Spec) write(overwrite bool) error {
 	if err != nil {
 		return fmt.Errorf("failed to create Spec dir: %w", err)
 	}
+	verifPoint("write:mkdir")
 
 	tmp, err = os.CreateTemp(dir, "spec.*.tmp")
 	if err != nil {
 		return fmt.Errorf("failed to create Spec file: %w", err)
 	}
+	verifPoint("write:created")
 	_, err = tmp.Write(data)
+	verifPoint("write:written")
 	_ = tmp.Close()
 	if err != nil {
 		return fmt.Errorf("failed to write Spec file: %w", err)
 	}
+	verifPoint("write:closed")
 
 	err = renameIn(dir, filepath.Base(tmp.Name()), filepath.Base(s.path), overwrite)
+	verifPoint("write:renamed")
 
 	if err != nil {
 		_ = os.Remove(tmp.Name())
